@@ -136,6 +136,11 @@ func sumTags(cols []column, kinds []string) map[string]bool {
 			id = col.T.ID
 		}
 		nonNull := len(col.Vals) - col.Nulls
+		if id == zed.IDDuration || id == zed.IDTime || (id >= zed.IDFloat16 && id <= zed.IDFloat64) {
+			// the sequential result takes the type of such a column even when all its values
+			// are null (typed nulls take part in the promotion); the vector result is int64
+			tags["result-type-int64"] = true
+		}
 		numeric := id >= 0 && (isIntKind(id) || isUintKind(id) || (id >= zed.IDFloat16 && id <= zed.IDFloat64))
 		switch {
 		case k == "loadfails":
@@ -186,7 +191,7 @@ type opsOutcome struct {
 func (h *harness) runOpsCase(oc *ocase) *opsOutcome {
 	out := &opsOutcome{}
 	var resp wResp
-	crashed, msg := h.w.Call(oc.wreq("ops"), 60*time.Second, &resp)
+	crashed, msg := h.w.Call(oc.wreq("ops"), 25*time.Second, &resp)
 	if crashed {
 		out.crashed, out.crashMsg = true, msg
 	} else {
